@@ -218,6 +218,17 @@ R.contract("PriorityQueue.c_get_score_by_item", params={"self": REF("PriorityQue
                     ("present-gives-score", "implies(item in self.positions, result is self.heap[self.positions[item]].first)")],
            extra={"nullable_result": True}, props=P)
 
+# a second contract of c_pop for callers that do not care WHICH queued item comes out (read selection's safety properties): no root-is-maximum
+# precondition, no maximality postcondition
+R.contract("PriorityQueue.c_pop/any", params={"self": REF("PriorityQueue")}, returns=ENTRY,
+           requires=WF,
+           raises={"IndexError": "len(self.heap) == 0"},
+           ensures=[("pos", "POSOK(self)"), ("order", "ORDER(self)"),
+                    ("returns-queued-item-with-its-score", "old(result.second in self.positions) and old(self.heap[self.positions[result.second]].first) is result.first"),
+                    ("view", "VIEW_REMOVED(self, result.second)"), SCORES_VALID],
+           modifies=["PriorityQueue.heap", "PriorityQueue.positions"], extra={"target": "PriorityQueue.c_pop"}, props=P)
+R.contract("PriorityQueue.is_empty", params={"self": REF("PriorityQueue")}, returns=BOOL, ensures=["result == (len(self.heap) == 0)"], props=P)
+
 R.contract("PriorityQueue.size", params={"self": REF("PriorityQueue")}, returns=INT, ensures=["result == len(self.heap)"], props=P)
 R.contract("PriorityQueue.c_is_empty", params={"self": REF("PriorityQueue")}, returns=BOOL, ensures=["result == (len(self.heap) == 0)"], props=P)
 
